@@ -363,6 +363,20 @@ def literal_for(rng, s, n, f, radix):
     r = rng.random()
     neg = s and rng.random() < 0.4
     sign = '-' if neg else rng.choice(['', '', '', '+'])
+    if radix == 10 and n == 128 and rng.random() < 0.10:
+        # limb-carry directed (128-bit decimal path): the 54 leading fractional digits are read as two 27-digit halves (hi, lo) and joined as
+        # hi * 10^27 + lo in two 128-bit limbs; choose hi with hi * 10^27 = m * 2^128 - r (0 < r < 10^27) and lo on both sides of r, so that the low-limb
+        # addition carries (a 2^-38 event for random digits)
+        P27 = 10 ** 27
+        m = rng.randrange(1, (10 ** 54) >> 128)
+        hi_ = (m << 128) // P27
+        r_ = (m << 128) - hi_ * P27
+        lo_ = min(P27 - 1, max(0, rng.choice([r_, r_ - 1, r_ + 1, P27 - 1, rng.randrange(r_, P27) if r_ < P27 else P27 - 1])))
+        fp = '%027d%027d' % (hi_, lo_)
+        if rng.random() < 0.4:
+            fp += ''.join(rng.choice(DIG[:10]) for _ in range(rng.randint(1, 30)))
+        ip = '' if f == n else rng.choice(['', '0', '1', str(rng.randrange(0, 1 << max(0, min(n - f, 40))))])
+        return sign + ip + '.' + fp
     if r < 0.40:
         # tie-directed: (k + 1/2) * 2^-f exactly, and its neighbourhood
         k = abs(rand_val(rng, s, n, f, edges(s, n, f)))
